@@ -26,6 +26,7 @@ INTS = ["x", "y", "<state>u", "<p>n", "<t>"]
 ARRS = ["a", "<state>b"]
 FUNCS = ["<func>f", "<func>g2", "<func>raise_h", "<func>arr_k", "<func>len_", "<func>p0"]
 LOOPVARS = ["i", "j"]
+IMPLICIT = [False]        # switched on for the oracle-only stream of programs with implicit solves
 
 
 def norm_expr(e):
@@ -50,6 +51,14 @@ def gen_store(rng):
 def gen_stmt_kind(rng, pool_ints, pool_arrs):
     g = lang.Gen(rng, pool_ints, pool_arrs, [], FUNCS)
     c = rng.random()
+    if IMPLICIT[0] and rng.random() < 0.3:
+        # an implicit solve (outside the Coq model; executed by lang.implicit_mixin): the unknown's name is
+        # also an ordinary variable and may occur in the starting guess
+        sv = rng.choice(pool_ints[:3])
+        expr = ["nary", "sum", [["var", sv], g.int_expr(1)]]
+        guess = rng.choice([["var", sv], ["var", sv], g.int_expr(1)])
+        return ["implicit", [rng.choice(pool_ints + ["z", "w"])], [sv], [["bin", "rem", expr, ["int", 97]]],
+                [["guess", guess]], "newton"]
     if c < 0.62:
         nloops = rng.choice([0, 0, 0, 0, 1, 1, 2])
         lvs = LOOPVARS[:nloops]
@@ -264,6 +273,9 @@ def add_real(cb, k):
         cb.assign(lhs, lang.to_pym(k[3]), loops=[(i, lang.to_pym(lo), lang.to_pym(hi)) for i, lo, hi in k[4]])
     elif t == "call":
         cb.assign(tuple(p.Variable(x) for x in k[1]), lang.to_pym(["call", k[2], k[3], k[4]]))
+    elif t == "implicit":
+        cb.assign_implicit(tuple(k[1]), tuple(k[2]), tuple(lang.to_pym(e) for e in k[3]),
+                           {n: lang.to_pym(e) for n, e in k[4]}, k[5])
     elif t == "yield":
         cb.yield_state(lang.to_pym(k[4]), k[1], lang.to_pym(k[3]), k[2])
     elif t == "fail":
@@ -334,7 +346,7 @@ def exec_schedule(stmts, order, store):
     from dagrt.exec_numpy import FailStepException, NumpyInterpreter, TransitionEvent
     from dagrt.language import DAGCode, ExecutionPhase, Nop
     code = DAGCode({"p": ExecutionPhase("p", "p", frozenset([Nop(id="n")]))}, "p")
-    interp = NumpyInterpreter(code, lang.function_map(FUNCS))
+    interp = lang.implicit_mixin(NumpyInterpreter)(code, lang.function_map(FUNCS))
     ctx = {k: lang.val_to_py(v) for k, v in store.items()}
     interp.context = ctx
     interp.eval_mapper.context = ctx
@@ -374,7 +386,7 @@ def natural_run(prog, store):
     from dagrt.exec_numpy import FailStepException, NumpyInterpreter, TransitionEvent
     from dagrt.language import DAGCode, ExecutionPhase, Nop, Raise
     code = DAGCode({"p": ExecutionPhase("p", "p", frozenset([Nop(id="n")]))}, "p")
-    interp = NumpyInterpreter(code, lang.function_map(FUNCS))
+    interp = lang.implicit_mixin(NumpyInterpreter)(code, lang.function_map(FUNCS))
     ctx = {k: lang.val_to_py(v) for k, v in store.items()}
     interp.context = ctx
     interp.eval_mapper.context = ctx
@@ -520,6 +532,12 @@ def stmt_vars(k):
             u |= lang.expr_vars(e)
     elif k[0] == "yield":
         u |= lang.expr_vars(k[3]) | lang.expr_vars(k[4])
+    elif k[0] == "implicit":
+        u |= set(k[1]) | set(k[2])
+        for e in k[3]:
+            u |= lang.expr_vars(e)
+        for _, e in k[4]:
+            u |= lang.expr_vars(e)
     return u
 
 
@@ -547,7 +565,7 @@ def rename_expr(e, m):
 
 
 def written_names(k):
-    return {k[1]} if k[0] == "assign" else set(k[1]) if k[0] == "call" else set()
+    return {k[1]} if k[0] == "assign" else set(k[1]) if k[0] in ("call", "implicit") else set()
 
 
 def a3_violations(prog, store):
@@ -680,8 +698,9 @@ def main(tier):
     for prog, store in corpus():
         names, cb = fresh_names(prog)
         cases.append((prog, cb, names, store))
-    for _ in range(nprog):
+    for pi in range(nprog):
         n = rng.choice([2, 3, 4, 5, 6, 7, 9, 12])
+        IMPLICIT[0] = (pi % 8 == 7)
         try:
             prog, _cb = build_program(rng, n)
         except BuilderFailure as bf:
@@ -714,7 +733,7 @@ def main(tier):
         deps = [b["deps"] for b in built]
         orders = [list(range(nst))] + [random_extension(rng, deps) for _ in range(2)]
         runs = [(order, exec_schedule(stmts, order, store)) for order in orders]
-        if all(in_universe(r) for _, r in runs):
+        if all(in_universe(r) for _, r in runs) and not any(b["kind"][0] == "implicit" for b in built):
             univ = sorted(set(store) | set().union(*[stmt_vars(b["kind"]) | lang.expr_vars(b["cond"]) for b in built])
                           | {lv for b in built if b["kind"][0] == "assign" for lv, _, _ in b["kind"][4]}) \
                 if built else sorted(store)
